@@ -17,6 +17,7 @@ mod c18;
 mod c17;
 mod c02;
 mod c14;
+mod c15;
 
 pub struct Out {
     pub cases: BufWriter<File>,
@@ -88,6 +89,7 @@ fn main() {
                 "C01" => c01::gen(seed, n, &mut out),
                 "C02" => c02::gen(seed, n, &mut out),
                 "C14" => c14::gen(seed, n, &mut out),
+                "C15" => c15::gen(seed, n, &mut out),
                 "C03" => c03::gen(seed, n, &mut out),
                 "C04" => c04::gen(seed, n, &mut out),
                 "C05csr" => c05::gen_csr(seed, n, &mut out),
